@@ -776,6 +776,27 @@ pub fn run(ctx: &Ctx) {
     let list_input = Value::Map(
         [("items".to_string(), Value::Vec((0..4).map(|i| Value::String(format!("leaf#{i}"))).collect()))].into_iter().collect(),
     );
+    let rooted = rooted_path_cases();
+    ctx.enumerate(
+        "rooted-paths-and-membership",
+        rooted.len() as u64,
+        true,
+        |i, acc| {
+            let case = &rooted[i as usize];
+            acc.cell(&format!("rooted:{}", super::evalcommon::root_sig(&case.expr)), true);
+            if i % 499 == 0 {
+                acc.sample("rooted", || case.render().chars().take(240).collect());
+            }
+            check_rooted_path(case)
+        },
+        |i| {
+            let mut j = rooted[i as usize].to_json();
+            j["rooted_path"] = serde_json::json!(true);
+            j
+        },
+        "rooted-path",
+    );
+
     // a step applied directly to a list / map literal: every item of the literal is evaluated (an unknown field, symbol
     // or function in an item that is not selected is still reported), and the step then addresses exactly one item
     let lits = literal_step_cases();
@@ -869,6 +890,66 @@ pub fn run(ctx: &Ctx) {
     );
 }
 
+/// Paths of one to four steps rooted at an input field, at `facts` and at a symbol, through maps, lists, texts and numbers
+/// (so that steps land on values of the wrong kind at every position), bare and as the collection / item of a membership
+/// test: every step is applied in the order written, and a step into a value of the wrong kind is a type error wherever
+/// in the path it occurs.
+pub fn rooted_path_cases() -> Vec<super::evalcommon::EvalCase> {
+    let tags = |v: &[&str]| Value::Vec(v.iter().map(|s| Value::String(s.to_string())).collect());
+    let m = |pairs: Vec<(&str, Value)>| Value::Map(pairs.into_iter().map(|(k, v)| (k.to_string(), v)).collect());
+    let order = m(vec![
+        ("id", Value::Int(7)),
+        ("name", Value::String("tags".into())),
+        ("customer", m(vec![("tags", tags(&["vip", "new"])), ("name", Value::String("n".into())), ("id", Value::Int(1))])),
+        ("tags", m(vec![("customer", tags(&["other"])), ("vip", Value::Int(1))])),
+        ("lines", Value::Vec(vec![m(vec![("qty", Value::Int(2)), ("tags", tags(&["x"]))]), m(vec![("qty", Value::Int(3))])])),
+        ("rows", Value::Vec(vec![Value::Vec(vec![Value::Int(1), Value::Int(2)]), Value::Vec(vec![Value::Int(3)])])),
+        ("nothing", Value::None),
+    ]);
+    let facts = m(vec![("order", order.clone()), ("vip", Value::String("vip".into()))]);
+    let mut symbols = BTreeMap::new();
+    symbols.insert("order".to_string(), order);
+    let steps: Vec<Index> = vec![Index::Map("customer".into()), Index::Map("tags".into()), Index::Map("id".into()), Index::Map("lines".into()), Index::Map("rows".into()), Index::Map("nothing".into()), Index::Map("x".into()), Index::Vec(0), Index::Vec(1), Index::Map("qty".into()), Index::Map("name".into())];
+    let roots: Vec<Expr> = vec![Expr::reff("order"), Expr::symbol("order"), Expr::index(Expr::reff("facts"), Index::Map("order".into()))];
+    let items: Vec<Expr> = vec![Expr::value("vip".to_string()), Expr::value("other".to_string()), Expr::value(1), Expr::reff("vip"), Expr::value("customer".to_string())];
+    let mut paths: Vec<Vec<Index>> = vec![];
+    for a in &steps {
+        paths.push(vec![a.clone()]);
+        for b in &steps {
+            paths.push(vec![a.clone(), b.clone()]);
+        }
+    }
+    // three and four steps: the addresses that exist, their reversals, and wrong kinds early / in the middle
+    let named = |v: &[&str]| -> Vec<Index> { v.iter().map(|s| s.parse::<usize>().map(Index::Vec).unwrap_or_else(|_| Index::Map(s.to_string()))).collect() };
+    for p in [
+        &["customer", "tags", "0"][..], &["tags", "customer", "0"], &["lines", "0", "tags"], &["lines", "0", "tags", "0"], &["0", "tags", "lines"], &["rows", "0", "1"], &["rows", "1", "0"], &["id", "x", "y"],
+        &["id", "x", "y", "z"], &["customer", "id", "x"], &["customer", "0", "tags"], &["lines", "qty", "0"], &["nothing", "x", "y"], &["x", "y", "z"], &["name", "0", "1"], &["customer", "name", "tags", "0"],
+    ] {
+        paths.push(named(p));
+    }
+    let mut out = vec![];
+    let mk = |e: Expr| super::evalcommon::EvalCase { expr: e, facts: facts.clone(), fns: BTreeMap::new(), symbols: symbols.clone() };
+    for root in &roots {
+        for p in &paths {
+            let path = p.iter().fold(root.clone(), |e, i| Expr::index(e, i.clone()));
+            out.push(mk(path.clone()));
+            out.push(mk(Expr::none(path.clone())));
+            if p.len() >= 2 {
+                for x in &items {
+                    out.push(mk(Expr::contains(path.clone(), x.clone())));
+                    out.push(mk(Expr::contains(Expr::Vec(vec![x.clone()]), path.clone())));
+                }
+            }
+        }
+    }
+    out
+}
+
+pub(crate) fn check_rooted_path(case: &super::evalcommon::EvalCase) -> Verdict {
+    let o = super::evalcommon::observe(case);
+    super::c02::judge(case, &o.actual, &o.model).map_err(|i| Issue::new(i.sig.replace("table:", "path:rooted:"), i.msg))
+}
+
 fn literal_step_cases() -> Vec<super::evalcommon::EvalCase> {
     let mut fns = BTreeMap::new();
     fns.insert("fa".to_string(), me::FnSpec { cacheable: true, fail_on: vec![], fail_first: 0, uncacheable_after: 0 });
@@ -910,6 +991,9 @@ fn literal_step_cases() -> Vec<super::evalcommon::EvalCase> {
 }
 
 pub fn replay(j: &serde_json::Value) -> Option<Verdict> {
+    if j.get("rooted_path").is_some() {
+        return super::evalcommon::EvalCase::from_json(j).map(|c| check_rooted_path(&c));
+    }
     if j.get("literal_step").is_some() {
         let case = super::evalcommon::EvalCase::from_json(j)?;
         let o = super::evalcommon::observe(&case);
